@@ -13,6 +13,7 @@ import (
 	"github.com/virus-evolution/gofasta/pkg/fastaio"
 
 	biogosam "github.com/biogo/hts/sam"
+	"github.com/virus-evolution/gofasta/pkg/vhook"
 )
 
 // alignPair is a struct for storing an aligned reference & query sequence pair
@@ -242,6 +243,7 @@ func blockToPairwiseAlignment(cSR chan samRecords, cPair chan alignPair, cErr ch
 			pair.refname = string(group.records[0].Ref.Name())
 			pair.queryname = group.records[0].Name
 			pair.idx = group.idx
+			vhook.Ready("sam.blockToPairwiseAlignment", group.idx)
 			cPair <- pair
 
 		} else {
@@ -262,6 +264,7 @@ func blockToPairwiseAlignment(cSR chan samRecords, cPair chan alignPair, cErr ch
 			pair.refname = string(group.records[0].Ref.Name())
 			pair.idx = group.idx
 
+			vhook.Ready("sam.blockToPairwiseAlignment", group.idx)
 			cPair <- pair
 		}
 	}
@@ -300,6 +303,7 @@ func trimAlignment(trim bool, trimStart int, trimEnd int, cPairIn chan alignPair
 	if !trim {
 		// if no trimming is specified we take the whole sequence:
 		for pair := range cPairIn {
+			vhook.Ready("sam.trimAlignment", pair.idx)
 			cPairOut <- pair
 		}
 	} else {
@@ -314,6 +318,7 @@ func trimAlignment(trim bool, trimStart int, trimEnd int, cPairIn chan alignPair
 			pair.query = pair.query[adjTrimStart:adjTrimEnd]
 			pair.ref = pair.ref[adjTrimStart:adjTrimEnd]
 
+			vhook.Ready("sam.trimAlignment", pair.idx)
 			cPairOut <- pair
 		}
 	}
@@ -353,6 +358,7 @@ func writePairwiseAlignment(p string, w int, cPair chan alignPair, cWriteDone ch
 
 	if p == "stdout" {
 		for AP := range cPair {
+			vhook.Recv("sam.writePairwiseAlignment", AP.idx)
 			if !omitRef {
 				_, err = fmt.Fprintln(os.Stdout, ">"+AP.refname)
 				if err != nil {
@@ -376,6 +382,7 @@ func writePairwiseAlignment(p string, w int, cPair chan alignPair, cWriteDone ch
 		os.MkdirAll(p, 0755)
 
 		for AP := range cPair {
+			vhook.Recv("sam.writePairwiseAlignment", AP.idx)
 			// forward slashes are illegal in unix filenames (so is ascii NUL ?)
 			des := strings.ReplaceAll(AP.queryname, "/", "_")
 			// unix filenames must be <= 255 chars, (account for ".fasta")
